@@ -223,6 +223,10 @@ def check_roundtrip(ctx, arg, xml_bytes, label):
             denoted = None
         if denoted is not None:
             for p in score_arg.parts:
+                if any(n.tie_next is not None and (n.tie_next.start.t != n.end.t or (n.tie_next.step, n.tie_next.alter or 0, n.tie_next.octave) !=
+                                                   (n.step, n.alter or 0, n.octave)) for n in timemaps.objects_of(p, S.Note, exact=False)):
+                    ctx.ambiguous()      # a tie between notes that do not touch or differ in pitch (tests/data/kern/tie_mismatch.krn): no file can denote it
+                    continue
                 exp = sounding_quarters(p)
                 got = denoted.get(p.id)
                 if got is None or [tuple(x) for x in got] != exp:
